@@ -392,7 +392,7 @@ macro "presd" : tactic =>
   `(tactic| aesop (config := { terminal := true, useDefaultSimpSet := false, useSimpAll := false, maxRuleApplications := 3000 }))
 
 theorem kKill_presd (L : LeafD I) (pid sig : Nat) (via : String) : Pres I (kKill pid sig via) := by
-  have h := L.runK _ (KMono.kill pid sig)
+  have h := L.runK _ (KMono.killD pid sig)
   unfold kKill; aesop (add safe apply h) (config := { terminal := true, useDefaultSimpSet := false, useSimpAll := false })
 attribute [local aesop safe apply] kKill_presd
 theorem kWaitpid_presd (L : LeafD I) (pid : Option Nat) : Pres I (kWaitpid pid) := by
@@ -590,6 +590,13 @@ attribute [local aesop safe apply] sendSignal_presv
 theorem sendSignalChild_presv (L : LeafV tid I) (p c sg : Nat) : Pres I (sendSignalChild p c sg) := by
   unfold sendSignalChild; presv
 attribute [local aesop safe apply] sendSignalChild_presv
+theorem signalKids_presv (L : LeafV tid I) (u p sg : Nat) (cs : List Nat) : Pres I (signalKids u p sg cs) := by
+  induction cs with
+  | nil => unfold signalKids; presv
+  | cons c cs ih =>
+    unfold signalKids
+    aesop (add safe apply ih) (config := { terminal := true, useDefaultSimpSet := false, useSimpAll := false, maxRuleApplications := 3000 })
+attribute [local aesop safe apply] signalKids_presv
 theorem sendSignalProcess_presv (L : LeafV tid I) (u p sg : Nat) (r : Bool) : Pres I (sendSignalProcess u p sg r) := by
   unfold sendSignalProcess; presv
 attribute [local aesop safe apply] sendSignalProcess_presv
